@@ -219,6 +219,89 @@ func genChain(rng *rand.Rand, id int) *pipeRun {
 	return pr
 }
 
+// genLong: byte payloads with SINGLE LINES far beyond a pipe buffer / bufio buffer (70 000 and 200 000 bytes)
+// between short lines, with \r\n endings, an empty line and a final unterminated line, flowing into
+// IterateInputs (harness drain; builtin each / all / take / drop as last stage) and into the harness' own
+// line reader. The producer keeps more than a pipe buffer to write after the first long line.
+func genLong(rng *rand.Rand, id int) *pipeRun {
+	pr := &pipeRun{ID: id, LineLen: 3300 + rng.Intn(700), Procs: []int{1, 2, 4, 8, 16}[rng.Intn(5)]}
+	var p []op
+	lbl := 1000
+	add := func(n int, m string) {
+		lbl++
+		if m == "empty" {
+			p = append(p, op{K: "putb", V: 0, M: m})
+			return
+		}
+		p = append(p, op{K: "putb", V: lbl, N: n, M: m})
+	}
+	add(16+rng.Intn(40), "")
+	if rng.Intn(2) == 0 {
+		add(16+rng.Intn(40), "rn")
+	}
+	add(65536+rng.Intn(9000), []string{"", "rn"}[rng.Intn(2)]) // >= 64 KiB in one line
+	add(16+rng.Intn(3000), "")
+	if rng.Intn(2) == 0 {
+		add(0, "empty")
+	}
+	tail := rng.Intn(3) > 0 // FALSE: after the long line less than a pipe buffer follows (nothing can block: a lost line shows as loss)
+	if tail {
+		add(200000+rng.Intn(5000), "")
+	}
+	add(16+rng.Intn(100), "rn")
+	if tail && rng.Intn(2) == 0 {
+		add(65535, "") // content + newline = exactly 64 KiB
+	}
+	if rng.Intn(2) == 0 {
+		add(16+rng.Intn(100), "none") // final line without a line ending
+	}
+	nlines := len(p)
+	p = append(p, op{K: "ok"})
+	pr.Scripts = [][]op{p}
+	pr.Logged = []bool{true}
+	pr.Words = []string{""}
+	pr.Yield = []int64{rng.Int63()}
+	addStage := func(sc []op, word string) {
+		pr.Scripts = append(pr.Scripts, sc)
+		pr.Logged = append(pr.Logged, word == "")
+		pr.Words = append(pr.Words, word)
+		pr.Yield = append(pr.Yield, rng.Int63())
+	}
+	exit := op{K: "ok"}
+	switch rng.Intn(6) {
+	case 0: // builtin consumers as last stage: IterateInputs + forward to the captured output
+		m := rng.Intn(nlines + 1)
+		switch rng.Intn(4) {
+		case 0:
+			addStage([]op{{K: "fwd", M: "all"}, exit}, "all")
+		case 1:
+			addStage([]op{{K: "fwd", M: "all"}, exit}, "each {|x| put $x }")
+		case 2:
+			addStage([]op{{K: "fwd", M: "take", N: m}, exit}, fmt.Sprintf("take %d", m))
+		default:
+			addStage([]op{{K: "fwd", M: "drop", N: m}, exit}, fmt.Sprintf("drop %d", m))
+		}
+	case 1: // the harness' own line reader, to the end
+		var sc []op
+		for i := 0; i < nlines+1; i++ {
+			sc = append(sc, op{K: "getb"})
+		}
+		addStage(append(sc, exit), "")
+	case 2: // the harness' own line reader, leaving early (the writer gets EPIPE inside or after a long line)
+		var sc []op
+		for i := 0; i < 1+rng.Intn(nlines-1); i++ {
+			sc = append(sc, op{K: "getb"})
+		}
+		addStage(append(sc, exit), "")
+	case 3: // IterateInputs, then a builtin behind it
+		addStage([]op{{K: "drain"}, {K: "putv", V: 2000}, {K: "putv", V: 2001}, exit}, "")
+		addStage([]op{{K: "fwd", M: "all"}, exit}, "all")
+	default: // IterateInputs in a harness stage
+		addStage([]op{{K: "drain"}, exit}, "")
+	}
+	return pr
+}
+
 func nOps(pr *pipeRun) int {
 	n := 0
 	for _, sc := range pr.Scripts {
